@@ -17,3 +17,7 @@ Proof. exact assemble_spec. Qed.
 Theorem C13_empty_block_skipped : forall ts1 ts2, forallb is_stmt_tree ts1 = true -> forallb is_stmt_tree ts2 = true ->
   assemble (map Some ts1 ++ None :: map Some ts2) = assemble (map Some (ts1 ++ ts2)).
 Proof. exact assemble_skips. Qed.
+
+(* non-vacuity: leading, doubled and trailing separators around two statements *)
+Example C13_premise_satisfiable : well_sep [Semi; Stmt 1; Semi; Semi; Stmt 2; Semi] = true /\ stmts_of [Semi; Stmt 1; Semi; Semi; Stmt 2; Semi] = [1; 2]%nat.
+Proof. vm_compute. auto. Qed.
